@@ -104,6 +104,9 @@ def gen_stream(rng, term, tier, esc_ok):
 
 
 def gen(rng, tier, n):
+    for i in range(6 if tier == "quick" else 40):
+        # contention runs of the real Reader (src/reader.rs): trials, items per trial
+        yield "rdr;10;0;0;_;_;_;-;%d,%d;_|" % (rng.choice([150, 250]), rng.choice([5, 40, 200]))
     for i in range(n):
         cli = rng.random() < (0.22 if tier == "quick" else 0.3)
         if cli:
@@ -119,6 +122,8 @@ def gen(rng, tier, n):
             query = rng.choice(QUERIES)
         p0 = int(cli and rng.random() < 0.5)
         reads = [rng.choice(READS) for _ in range(rng.randint(1, 4))]
+        if not cli and rng.random() < 0.25:
+            reads.insert(rng.randint(0, len(reads)), 0)      # 0 = ONE transient read error (EAGAIN) between two lines, then reading goes on
         close = "_"
         if rng.random() < 0.07:
             close = str(rng.choice([0, 1, 2, 3, 7]))
@@ -172,11 +177,15 @@ def _parts(case):
 
 
 def nontrivial(case):
+    if case.startswith("rdr;"):
+        return True
     f, data = _parts(case)
     return len(data) >= 4 and data.count(bytes([int(f[1])])) >= 2
 
 
 def histogram_keys(case):
+    if case.startswith("rdr;"):
+        return ["lvl=rdr"]
     f, data = _parts(case)
     term = int(f[1])
     ks = ["lvl=" + f[0], "term=" + {10: "LF", 0: "NUL"}.get(term, "other")]
